@@ -6,6 +6,8 @@
 use std::io::{self, BufRead, Write};
 use std::panic::{catch_unwind, AssertUnwindSafe};
 
+mod actor;
+mod faulty;
 mod group;
 mod node;
 mod orswot;
@@ -26,6 +28,7 @@ fn new_domain(name: &str, params: &[&str]) -> Option<Box<dyn Domain>> {
         "node" => Some(Box::new(node::NodeDomain::new(params))),
         "store" => Some(Box::new(store::StoreDomain::new(params))),
         "group" => Some(Box::new(group::GroupDomain::new(params))),
+        "actor" => Some(Box::new(actor::ActorDomain::new(params))),
         _ => None,
     }
 }
